@@ -856,8 +856,26 @@ def _item(E, t):
     return t.elem([0] * len(t.shape))
 
 
+_DATA_PTRS = []
+
+
+def _data_ptr(E, t):
+    """Tensor.data_ptr(): the address of the first element.  Identity views (`.data`, detach, same-shape views) and reshapes share the
+    address of their base; distinct storages have distinct addresses; a view with an offset (slice / select) is outside the model."""
+    cur = t
+    while cur.base is not None:
+        if "slice_of" in cur.attrs or not (cur.attrs.get("identity_view") or cur.layout is not None and cur.layout[0] == "reshape"):
+            raise Unsupported("data_ptr() of a view that may carry a storage offset")
+        cur = cur.base
+    for k, r in enumerate(_DATA_PTRS):
+        if r is cur:
+            return 4096 * (k + 1)
+    _DATA_PTRS.append(cur)
+    return 4096 * len(_DATA_PTRS)
+
+
 TENSOR_METHODS.update({
-    "size": _size, "stride": _stride, "to": _to, "item": _item,
+    "size": _size, "stride": _stride, "to": _to, "item": _item, "data_ptr": _data_ptr,
     "numel": lambda E, t: numel_of(_size(E, t)),
     "dim": lambda E, t: len(_size(E, t)),
     "is_floating_point": lambda E, t: E.getattr(t, "dtype").is_floating_point,
